@@ -79,6 +79,21 @@ def gen_cases(rng, tier):
             ln = len(row) - x0 if v % 2 == 0 else left - x0 + 1 + rng.randint(0, right)
             cs, args = px_case(0, mode, False, False, color, False, x0, ln, row, [])
             cases.append((cs, args + [-777, 7 * 10**8 + g, left]))
+    # an opaque colour through the high-precision pipeline with a mask: the mask makes the source translucent PER PIXEL; the first
+    # pixel of the span (lane 0 of a batch) has mask 255 in some members of the group and something else in others
+    for g in range(60 if tier == "quick" else 800):
+        mode = rng.choice([3, 3, 3, 1, 4, rng.randrange(29)])
+        color = tuple(rand_color(rng)[:3]) + (255,)
+        tgt = rand_premul(rng) + (rng.choice([1, 100, 128, 200, 254]),)
+        for v in range(5):
+            x0 = rng.choice([0, 0, 3, 8])
+            left = x0 + rng.randint(1, 9)
+            right = rng.randint(0, 10)
+            nb = lambda: rand_premul(rng) + (rng.choice([0, 255, 255, rng.randint(1, 254)]),)
+            row = [nb() for _ in range(left)] + [tgt] + [nb() for _ in range(right)]
+            row[x0] = row[x0][:4] + ((255,) if v % 2 == 0 else (rng.choice([0, 128, 254]),))
+            cs, args = px_case(0, mode, True, False, color, True, x0, len(row) - x0, row, [])
+            cases.append((cs, args + [-777, 8 * 10**8 + g, left]))
     # float colours whose premultiplied channel times 255 is an exact tie k + 1/2 in binary32 (8-bit colours never are):
     # the rounding of the store must not depend on whether the pixel falls in a full batch or in the tail of the span
     ties = tie_channels()
